@@ -386,7 +386,7 @@ type hgen struct{ rng *rand.Rand }
 func (g *hgen) pick(l []string) string { return l[g.rng.Intn(len(l))] }
 
 var hStrings = []string{"", "a", "A", "ab", "AB", "aB", "abc", "héllo", "HÉLLO", "日本", "日本語", "x-1", "2020-01-01", "ſ", "s", "S", "K", "K",
-	"\xff", "a\xffb", "\xc3", "\xe6\x97", "\xed\xa0\x80", "\xf4\x90\x80\x80", "\xc0\x80", "é\xe6", "\xf0\x9f\x98\x80", "user@example.com", "97", "á"}
+	"\xff", "a\xffb", "\xc3", "\xe6\x97", "\xed\xa0\x80", "\xf4\x90\x80\x80", "\xc0\x80", "é\xe6", "\xf0\x9f\x98\x80", "user@example.com", "\xf0\x9f\x98\x80\xf0\x9f\x98\x80\xf0\x9f\x98\x80", "a\xf0\x9f\x98\x80b\xf0\x9f\x98\x81", "\xf0\x9d\x92\xb3\xf0\x9d\x92\xb4", "日本語日本語", "ééééé", "\xf0\x9f\x98\x80\xf0\x9f\x98\x80\xf0\x9f\x98\x80\xf0\x9f\x98\x80\xf0\x9f\x98\x80", "97", "á"}
 
 func (g *hgen) str() string { return tohex(g.pick(hStrings)) }
 
@@ -479,7 +479,7 @@ func h14Gen(seed int64, n int, tier string, out *bufio.Writer) {
 		switch c.Fn {
 		case "MinLength", "MaxLength":
 			c.Str = g.str()
-			c.N = int64(rng.Intn(7))
+			c.N = int64(rng.Intn(9))
 		case "Pattern":
 			c.Str = g.str()
 			c.Str2 = tohex(g.pick([]string{"^a", "a+", "(", "^[a-z]+$", "日", "\\d+", "", "[", "^$", "é"}))
